@@ -89,3 +89,35 @@ class HashK(Kernel):
 
 KERNELS += [_mk(HashK, "Hash_Tensor", cls="Tensor", id="C06.P.hash_tensor", describe="Tensor.__hash__ = 1 + hash(shape): equal keys (C06.P.key_tensor) have equal hashes"),
             _mk(HashK, "Hash_Convertible", cls="ConvertibleTensor", id="C06.P.hash_convertible", describe="ConvertibleTensor.__hash__ = hash(shape) + hash(frozen concrete): a function of exactly what __eq__ compares (C06.P.key_convertible), for graph inputs only")]
+
+
+class DependsOn(Kernel):
+    id = "C05.P.depends_on"
+    prop = "C05"
+    file, module, qual = G_FILE, G_MOD, "depends_on"
+    describe = ("tracer.depends_on(x, predecessor), used by InlineGraph to decide that a function is independent of the graph inputs: for two tracers, True iff x IS the predecessor or x has an "
+                "origin one of whose inputs depends on it (the recursive calls are used under this same contract: partial correctness); False whenever one of the two is not a tracer")
+
+    def setup(self, eng, bound=None):
+        self.x, self.pr = z3.Const("x", Obj), z3.Const("predecessor", Obj)
+        self.rec = uf("depends_on_rec", Obj, Obj, B)
+        a, b = z3.Const("a", Obj), z3.Const("b", Obj)
+        eng.axioms += [z3.ForAll([a, b], (uf("id_of", Obj, I)(a) == uf("id_of", Obj, I)(b)) == (a == b))]
+        eng.contracts.update({"id": SContract(lambda e, p, av, kw: SInt(uf("id_of", Obj, I)(av[0].t)), "id()"), "depends_on": SContract(lambda e, p, av, kw: SBool(self.rec(av[0].t, av[1].t)), "recursive call (induction hypothesis)")})
+        eng.seq_attrs = dict(getattr(eng, "seq_attrs", {}), inputs="obj")
+        return {"x": SObj(self.x), "predecessor": SObj(self.pr)}, [], {}
+
+    def post(self, eng, out, p):
+        if isinstance(out, Raise):
+            eng.oblige("post:no exception", p, z3.BoolVal(False), "post")
+            return
+        ist = uf("is_Tracer", Obj, B)
+        origin = uf("attr_origin", Obj, Obj)(self.x)
+        ins = eng.as_seq(SObj(uf("attr_inputs", Obj, Obj)(origin)), p, "obj")
+        k = fresh("k")
+        some = z3.Exists([k], z3.And(0 <= k, k < ins.n, self.rec(z3.Select(ins.arr, k), self.pr)))
+        want = z3.And(ist(self.x), ist(self.pr), z3.Or(self.x == self.pr, z3.And(z3.Not(uf("is_None", Obj, B)(origin)), some)))
+        eng.oblige("post:result = both are tracers and (x is the predecessor, or x has an origin with an input that depends on it)", p, eng.truth(out.v) == want, "post")
+
+
+KERNELS.append(DependsOn())
